@@ -2,9 +2,13 @@ package main
 
 import (
 	"context"
+	"crypto/sha1"
 	"fmt"
+	"net"
 	"sync"
 	"time"
+
+	"github.com/gopcua/opcua/uacp"
 
 	"github.com/gopcua/opcua/ua"
 	"github.com/gopcua/opcua/uasc"
@@ -23,23 +27,23 @@ type EStep struct {
 	Active  bool   `json:"active"`
 	Expect  string `json:"expect"`
 	Asis    string `json:"asis"`
+	Life    int    `json:"life"` // lifetime (ticks) of the token issued / injected
 }
 
 type ECase struct {
-	N        int     `json:"n"`
-	Prop     string  `json:"prop"`
-	Policy   string  `json:"policy"`
-	Mode     string  `json:"mode"`
-	Side     string  `json:"side"`
-	Lifetime int     `json:"lifetime"` // ticks
-	Steps    []EStep `json:"steps"`
+	N      int     `json:"n"`
+	Prop   string  `json:"prop"`
+	Policy string  `json:"policy"`
+	Mode   string  `json:"mode"`
+	Side   string  `json:"side"`
+	Life1  int     `json:"life1"` // lifetime (ticks) of the first token
+	Steps  []EStep `json:"steps"`
 }
 
 const (
-	expTick     = 400 * time.Millisecond
-	expLifetime = 20 * time.Second // real token lifetime (no automatic renewal before 15 s)
-	expSlack    = 500 * time.Millisecond
-	expExtra    = 4 * time.Second // additional wait for the expiry timer on a loaded machine
+	expTick  = 250 * time.Millisecond
+	expSlack = 500 * time.Millisecond
+	expExtra = 4 * time.Second // additional wait for the expiry timer on a loaded machine
 )
 
 // expiry hook events per client channel
@@ -59,104 +63,189 @@ func noteExpireRun(s *uasc.SecureChannel, tok uint32) {
 	}
 }
 
-// runExpire drives one behaviour: model time t happens at start + t*expTick.  The token
-// lifetime is 20 s; the server's clock (which stamps CreatedAt) runs behind by
-// 1.25*20 s - (Lifetime+Lifetime/4)*tick, so that the client's expiry timers fall where the
-// model says.  Every renewal is answered by a fresh server channel object with the next token id.
+// ownPair is a client channel built by the harness itself (its Config stays in the harness's hands:
+// the requested lifetime is changed from renewal to renewal, gopcua's server code revises a token's
+// lifetime to exactly what was requested) and the server end of the connection, on which one server
+// channel object per token answers the OPN exchanges and the injected chunks are written.
+type ownPair struct {
+	client *uasc.SecureChannel
+	cfg    *uasc.Config
+	cconn  *uacp.Conn
+	sconn  *uacp.Conn
+	ln     *uacp.Listener
+	r      *rec
+	cancel context.CancelFunc
+	ctx    context.Context
+}
+
+func (p *ownPair) close() {
+	reg.Delete(p.client)
+	p.cancel()
+	go p.client.Close()
+	p.cconn.Close()
+	p.sconn.Close()
+	p.ln.Close()
+}
+
+func openOwnPair(policy, mode string, lifetimeMs uint32) (*ownPair, error) {
+	l, err := net.Listen("tcp", "127.0.0.1:0")
+	if err != nil {
+		return nil, err
+	}
+	port := l.Addr().(*net.TCPAddr).Port
+	l.Close()
+	ep := fmt.Sprintf("opc.tcp://127.0.0.1:%d", port)
+	ctx, cancel := context.WithCancel(context.Background())
+	ack := &uacp.Acknowledge{ReceiveBufSize: 16384, SendBufSize: 8192, MaxChunkCount: 512, MaxMessageSize: 2 << 20}
+	ln, err := uacp.Listen(ctx, ep, ack)
+	if err != nil {
+		cancel()
+		return nil, fmt.Errorf("listen: %w", err)
+	}
+	type acc struct {
+		c   *uacp.Conn
+		err error
+	}
+	ach := make(chan acc, 1)
+	go func() { c, err := ln.Accept(ctx); ach <- acc{c, err} }()
+	dctx, dcancel := context.WithTimeout(ctx, 10*time.Second)
+	cconn, err := (&uacp.Dialer{Dialer: &net.Dialer{Timeout: 5 * time.Second}}).Dial(dctx, ep)
+	dcancel()
+	if err != nil {
+		cancel()
+		ln.Close()
+		return nil, fmt.Errorf("dial: %w", err)
+	}
+	var a acc
+	select {
+	case a = <-ach:
+	case <-time.After(10 * time.Second):
+		a.err = fmt.Errorf("accept timed out")
+	}
+	if a.err != nil {
+		cancel()
+		cconn.Close()
+		ln.Close()
+		return nil, fmt.Errorf("accept: %w", a.err)
+	}
+	ck, sk := keys.Get("2048a"), keys.Get("2048b")
+	th := sha1.Sum(sk.Cert)
+	cfg := &uasc.Config{SecurityPolicyURI: ua.FormatSecurityPolicyURI(policy), SecurityMode: chanpairMode(mode),
+		Certificate: ck.Cert, LocalKey: ck.Key, RemoteCertificate: sk.Cert, Thumbprint: th[:],
+		Lifetime: lifetimeMs, RequestTimeout: 600 * time.Millisecond}
+	cl, err := uasc.NewSecureChannel(ep, cconn, cfg, make(chan error, 64))
+	if err != nil {
+		cancel()
+		cconn.Close()
+		a.c.Close()
+		ln.Close()
+		return nil, err
+	}
+	p := &ownPair{client: cl, cfg: cfg, cconn: cconn, sconn: a.c, ln: ln, r: newRec(), cancel: cancel, ctx: ctx}
+	p.r.isRecv, p.r.viaDisp = true, true
+	reg.Store(cl, p.r)
+	return p, nil
+}
+
+// drain discards frames the client sent that nobody answered (OPN requests of its own renewal timers).
+func (p *ownPair) drain() {
+	for {
+		p.sconn.SetReadDeadline(time.Now().Add(30 * time.Millisecond))
+		if _, err := p.sconn.Receive(); err != nil {
+			break
+		}
+	}
+	p.sconn.SetReadDeadline(time.Time{})
+}
+
+// runExpire drives one behaviour in real time: model time t happens at start + t*expTick.  Every
+// token gets the lifetime the behaviour names (life ticks = life x 250 ms: 2 s, 5 s, 100 s), set as
+// the requested lifetime before the OPN exchange; every exchange is answered by a fresh server
+// channel object with the next token id.
 func runExpire(c *ECase) runResult {
 	if c.Side == "server" {
 		return runExpireServer(c)
 	}
-	dueTicks := c.Lifetime + c.Lifetime/4
-	skew := expLifetime*5/4 - time.Duration(dueTicks)*expTick
-	g, err := openRig(rigOpts{Policy: c.Policy, Mode: c.Mode, Side: "client", NoOpen: true, NoLoop: true, Lifetime: uint32(expLifetime / time.Millisecond)})
+	ms := func(ticks int) uint32 { return uint32(time.Duration(ticks) * expTick / time.Millisecond) }
+	g, err := openOwnPair(c.Policy, c.Mode, ms(c.Life1))
 	if err != nil {
 		return runResult{status: "inconclusive", detail: "open: " + err.Error()}
 	}
 	defer g.close()
 	el := &expLog{runs: map[uint32]bool{}}
-	expRuns.Store(g.p.Client, el)
-	defer expRuns.Delete(g.p.Client)
-	ctx, cancel := context.WithCancel(context.Background())
-	defer cancel()
-	clock := func() time.Time { return time.Now().Add(-skew) }
-	servers := map[int]*uasc.SecureChannel{1: g.p.Server}
-	uasc.VerifSetTime(g.p.Server, clock)
-	serve := func(s *uasc.SecureChannel) chan error {
+	expRuns.Store(g.client, el)
+	defer expRuns.Delete(g.client)
+	sk := keys.Get("2048b")
+	chanID, tok1 := uint32(7), uint32(1)
+	seq := uint32(100)
+	servers := map[int]*uasc.SecureChannel{}
+	tokID := map[int]uint32{}
+	exchange := func(t int, renew bool) error {
+		scfg := &uasc.Config{SecurityPolicyURI: ua.SecurityPolicyURINone, SecurityMode: ua.MessageSecurityModeNone,
+			Lifetime: 3600000, RequestTimeout: 20 * time.Second, Certificate: sk.Cert, LocalKey: sk.Key}
+		id := tok1 + uint32(t) - 1
+		seq += 10
+		srv, err := uasc.NewServerSecureChannel("opc.tcp://127.0.0.1:0", g.sconn, scfg, make(chan error, 16), chanID, seq, id)
+		if err != nil {
+			return err
+		}
+		servers[t], tokID[t] = srv, id
 		done := make(chan error, 1)
-		go func() { m := s.Receive(ctx); done <- m.Err }()
-		return done
+		go func() { m := srv.Receive(g.ctx); done <- m.Err }()
+		// the harness's own exchanges get a generous time-out; the client's own renewal timers, which nobody
+		// answers here, shall give up quickly (the Config is read when an exchange starts)
+		g.cfg.RequestTimeout = 20 * time.Second
+		defer func() { g.cfg.RequestTimeout = 600 * time.Millisecond }()
+		octx, ocancel := context.WithTimeout(g.ctx, 25*time.Second)
+		if renew {
+			err = g.client.Renew(octx)
+		} else {
+			err = g.client.Open(octx)
+		}
+		ocancel()
+		if err != nil {
+			return err
+		}
+		select {
+		case e := <-done:
+			if e != nil {
+				return fmt.Errorf("server side: %v", e)
+			}
+		case <-time.After(10 * time.Second):
+			return fmt.Errorf("server side did not return")
+		}
+		if _, _, s2, _, ok := uasc.VerifActive(srv); ok && s2 > seq {
+			seq = s2
+		}
+		return nil
 	}
-	d1 := serve(g.p.Server)
-	octx, ocancel := context.WithTimeout(ctx, 20*time.Second)
-	err = g.p.Client.Open(octx)
-	ocancel()
-	if err != nil {
+	if err := exchange(1, false); err != nil {
 		return runResult{status: "inconclusive", detail: "open: " + err.Error()}
 	}
 	start := time.Now()
-	select {
-	case e := <-d1:
-		if e != nil {
-			return runResult{status: "inconclusive", detail: "server OPN handling: " + e.Error()}
-		}
-	case <-time.After(10 * time.Second):
-		return runResult{status: "inconclusive", detail: "server OPN handling did not return"}
-	}
-	chanID, tok1, sseq, _, ok := uasc.VerifActive(g.p.Server)
-	if !ok {
-		return runResult{status: "inconclusive", detail: "server has no instance"}
-	}
-	tokID := map[int]uint32{1: tok1}
-	seq := sseq
 	at := func(tick int, extra time.Duration) {
 		if d := time.Until(start.Add(time.Duration(tick)*expTick + extra)); d > 0 {
 			time.Sleep(d)
 		}
 	}
 	var log []string
-	sk := keys.Get("2048b")
 	for i, st := range c.Steps {
 		switch st.Act {
 		case "renew":
-			at(st.Now, 50*time.Millisecond)
-			seq += 10
-			cfg := &uasc.Config{SecurityPolicyURI: ua.SecurityPolicyURINone, SecurityMode: ua.MessageSecurityModeNone,
-				Lifetime: uint32(expLifetime / time.Millisecond), RequestTimeout: 20 * time.Second, Certificate: sk.Cert, LocalKey: sk.Key}
-			id := tok1 + uint32(st.T) - 1
-			s2, err := uasc.NewServerSecureChannel("opc.tcp://127.0.0.1:0", g.p.SConn, cfg, make(chan error, 16), chanID, seq, id)
-			if err != nil {
-				return runResult{status: "inconclusive", detail: "server channel for renewal: " + err.Error()}
+			at(st.Now, 20*time.Millisecond)
+			g.drain()
+			g.cfg.Lifetime = ms(st.Life)
+			if err := exchange(st.T, true); err != nil {
+				return runResult{status: "inconclusive", detail: fmt.Sprintf("renew at t=%d: %v; %v", st.Now, err, log)}
 			}
-			uasc.VerifSetTime(s2, clock)
-			servers[st.T], tokID[st.T] = s2, id
-			d := serve(s2)
-			rctx, rcancel := context.WithTimeout(ctx, 20*time.Second)
-			err = g.p.Client.Renew(rctx)
-			rcancel()
-			if err != nil {
-				return runResult{status: "inconclusive", detail: "renew: " + err.Error()}
-			}
-			select {
-			case e := <-d:
-				if e != nil {
-					return runResult{status: "inconclusive", detail: "server renew handling: " + e.Error()}
-				}
-			case <-time.After(10 * time.Second):
-				return runResult{status: "inconclusive", detail: "server renew handling did not return"}
-			}
-			_, _, s2seq, _, _ := uasc.VerifActive(s2)
-			if s2seq > seq {
-				seq = s2seq
-			}
-			toks, _ := uasc.VerifTokens(g.p.Client)
-			log = append(log, fmt.Sprintf("t=%d renew -> token %d; client stores %v", st.Now, id, toks[chanID]))
+			toks, _ := uasc.VerifTokens(g.client)
+			log = append(log, fmt.Sprintf("t=%d renew -> token %d (lifetime %d ms); client stores %v", st.Now, tokID[st.T], ms(st.Life), toks[chanID]))
 		case "expire":
-			// the channel's own timer; nothing to do (see inject)
+			// the channel's own timers and clean-up; nothing to do (see inject)
 		case "inject":
 			at(st.Now, expSlack)
 			if st.Overdue {
-				// ordering by the expiry's own event, not by the wall clock: wait (bounded) for expire.run of that token
+				// ordering by the expiry's own event, not by the wall clock alone: wait (bounded) for expire.run of that token
 				deadline := time.Now().Add(expExtra)
 				for time.Now().Before(deadline) {
 					el.mu.Lock()
@@ -168,8 +257,7 @@ func runExpire(c *ECase) runResult {
 					time.Sleep(10 * time.Millisecond)
 				}
 			}
-			srv := servers[st.T]
-			algo := uasc.VerifInstanceAlgo(srv, chanID, tokID[st.T])
+			algo := uasc.VerifInstanceAlgo(servers[st.T], chanID, tokID[st.T])
 			if algo == nil {
 				return runResult{status: "inconclusive", detail: fmt.Sprintf("no keys of token %d", tokID[st.T])}
 			}
@@ -182,12 +270,12 @@ func runExpire(c *ECase) runResult {
 				return runResult{status: "inconclusive", detail: "chunk: " + err.Error()}
 			}
 			r0 := len(g.r.snapshot())
-			g.p.SConn.SetWriteDeadline(time.Now().Add(5 * time.Second))
-			if _, err := g.p.SConn.Write(fr); err != nil {
+			g.sconn.SetWriteDeadline(time.Now().Add(5 * time.Second))
+			if _, err := g.sconn.Write(fr); err != nil {
 				return runResult{status: "inconclusive", detail: "write: " + err.Error()}
 			}
 			if !g.r.waitFor(func(evs []Ev) bool { return hasRet(evs[r0:]) }, 10*time.Second) {
-				return runResult{status: "violation", key: "c17:receiver-silent", detail: fmt.Sprintf("no reaction to an injected chunk (step %d)", i)}
+				return runResult{status: "violation", key: "c17:receiver-silent", detail: fmt.Sprintf("no reaction to an injected chunk (step %d); %v", i, log)}
 			}
 			evs := g.r.snapshot()[r0:]
 			got := "reject"
@@ -196,8 +284,9 @@ func runExpire(c *ECase) runResult {
 					got = "accept"
 				}
 			}
-			toks, _ := uasc.VerifTokens(g.p.Client)
-			log = append(log, fmt.Sprintf("t=%d inject token %d (overdue=%v): %s, specification %s; client stores %v; %v", st.Now, tokID[st.T], st.Overdue, got, st.Expect, toks[chanID], evStrings(evs)))
+			toks, _ := uasc.VerifTokens(g.client)
+			log = append(log, fmt.Sprintf("t=%d (+%v) inject token %d (lifetime %d ms, overdue=%v): %s, specification %s; client stores %v; %v",
+				st.Now, time.Since(start).Round(10*time.Millisecond), tokID[st.T], ms(st.Life), st.Overdue, got, st.Expect, toks[chanID], evStrings(evs)))
 			obs := map[string]any{"log": log}
 			switch {
 			case st.Active && got != "accept":
@@ -212,9 +301,9 @@ func runExpire(c *ECase) runResult {
 					}
 				}
 				return runResult{status: "violation", key: key, obs: obs,
-					detail: fmt.Sprintf("a chunk protected with token %d was accepted although the token was replaced and created+1.25*lifetime has passed (model time %d, due %d): %v", tokID[st.T], st.Now, dueTicks, log)}
+					detail: fmt.Sprintf("a chunk protected with token %d was accepted although the token was replaced and created + 1.25 x lifetime (%d ms) has passed: %v", tokID[st.T], ms(st.Life)*5/4, log)}
 			}
-			// not overdue, not active: whether an early chunk of a superseded token is still accepted is C16's
+			// not overdue, not active: whether an early chunk of a replaced token is still accepted is C16's
 			// question; recorded only
 		}
 	}
@@ -223,7 +312,7 @@ func runExpire(c *ECase) runResult {
 
 // A server channel keeps a single instance and re-keys it on renewal: old keys are gone at once.
 func runExpireServer(c *ECase) runResult {
-	g, err := openRig(rigOpts{Policy: c.Policy, Mode: c.Mode, Side: "server", Lifetime: uint32(expLifetime / time.Millisecond)})
+	g, err := openRig(rigOpts{Policy: c.Policy, Mode: c.Mode, Side: "server", Lifetime: 20000})
 	if err != nil {
 		return runResult{status: "inconclusive", detail: "open: " + err.Error()}
 	}
